@@ -276,6 +276,9 @@ struct ProbeOut {
     /// events at the opener about the target after the open call: opened / open-failure counts
     opened: u32,
     failures: u32,
+    /// inbound streams of the target the opener's user accepted after the open call: each of them
+    /// is a stream-open attempt of its own and may end in an open-failure event too
+    accepted_inbound: u32,
     waited: Duration,
     /// after Opened on both sides: notifications sent / delivered each way
     sent: u32,
@@ -554,6 +557,7 @@ async fn run_probe(
         open_ret_ok: false,
         opened: 0,
         failures: 0,
+        accepted_inbound: 0,
         waited: Duration::ZERO,
         sent: 0,
         delivered: 0,
@@ -639,6 +643,7 @@ async fn run_probe(
         let la = logs[a].lock().unwrap();
         p.opened = la[mark..].iter().filter(|(_, _, l)| matches!(l, L::Opened { peer, .. } if *peer == b)).count() as u32;
         p.failures = la[mark..].iter().filter(|(_, _, l)| matches!(l, L::OpenFailure { peer, .. } if *peer == b)).count() as u32;
+        p.accepted_inbound = la[mark..].iter().filter(|(_, _, l)| matches!(l, L::ValidationAnswer { peer, accept: true } if *peer == b)).count() as u32;
     }
     if p.opened == 1 {
         // wait for the other side as well
@@ -800,6 +805,9 @@ fn check_c11(rep: &mut Report, s: &Scen, o: &RunOut, replay: &Value) {
         match (pr.opened, pr.failures) {
             (1, 0) => rep.hit(&format!("c11_{name}_opened")),
             (0, 1) => rep.hit(&format!("c11_{name}_open_failure")),
+            // the target opened a stream of its own meanwhile and the opener's user accepted it:
+            // that attempt may fail too (its own open-failure event), it is not a second answer
+            (a, b) if a <= 1 && a + b >= 1 && a + b <= 1 + pr.accepted_inbound => rep.hit(&format!("c11_{name}_answered_with_concurrent_inbound_attempt")),
             (0, 0) => {
                 if pr.lag_ms > 1000 {
                     rep.inconclusive(format!("runtime starved during the {name} window (lag {} ms)", pr.lag_ms));
